@@ -33,7 +33,8 @@ LEVEL_TEXT = (
     "their defaults), NonLinearPADMM, PDHG (linear / non-linear C), PGM and AcceleratedPGM (any step-size hook), the "
     "step() body equals the documented iteration on every state, for every option value, arbitrary operators / proximal "
     "maps / solvers, variables in arbitrary modules (real, complex, block); every accessor equals its documented "
-    "expression with and without supplied points. The model is tied to the code by replaying random instances on the real "
+    "expression with and without supplied points; the constructors' argument checks (ADMM list lengths, PGM has_prox) and "
+    "initial states. The model is tied to the code by replaying random instances on the real "
     "classes: full public state after each of k steps and all accessors, compared with the model's independent recomputation."
 )
 LEVEL_NOTE = (
@@ -82,6 +83,35 @@ def _norm(v):
     )
 
 
+def documented_x_update(b):
+    """the documented ADMM x-update  argmin_x f(x) + sum_i rho_i/2 ||z_i - u_i - C_i x||^2  for f = None or a weighted
+    squared-l2 loss, solved densely in numpy from matrices computed by numpy formulas (independent of the optimiser's
+    sub-problem solver, which is itself under test); None when f is not of that form"""
+    import scico.numpy as snp
+
+    s, cx, r = b.solver, b.cplx, b.recipe
+    n = G.size_of(b.xshape)
+    fr = r.get("f")
+    if fr is not None and fr.get("k") != "sqloss":
+        return None
+    H = np.zeros((n, n), dtype=np.complex128)
+    rhs = np.zeros((n,), dtype=np.complex128)
+    if fr is not None:
+        A = np.eye(n) if fr.get("A") is None else np.asarray(G.op_dense(fr["A"], b.xshape)[0])
+        y = np.asarray(G.np_flat(G.unflat(fr["y"], fr["yshape"], cx)))
+        W = np.ones(A.shape[0]) if fr.get("W") is None else np.asarray(fr["W"], dtype=np.float64)
+        H += 2.0 * fr["s"] * (A.conj().T * W) @ A
+        rhs += 2.0 * fr["s"] * (A.conj().T * W) @ y
+    for rho, c, z, u in zip(s.rho_list, r["C"], s.z_list, s.u_list):
+        M = np.asarray(G.op_dense(c, b.xshape)[0])
+        H += rho * M.conj().T @ M
+        rhs += rho * M.conj().T @ (np.asarray(G.np_flat(z)) - np.asarray(G.np_flat(u)))
+    if np.linalg.cond(H) > 1e10:
+        return None
+    x = np.linalg.solve(H, rhs)
+    return G.unflat(G.realify(x, cx).tolist(), b.xshape, cx)
+
+
 def documented_step(b):
     """post-state prescribed by the class documentation, computed from the current (pre-)state of b.solver with the
     optimiser's own functionals / operators; returns a state dict in the model representation"""
@@ -90,7 +120,9 @@ def documented_step(b):
     s, a, cx = b.solver, b.alg, b.cplx
     F = lambda v: G.flat(v, cx)  # noqa: E731
     if a == "admm":
-        x1 = s.subproblem_solver.solve(s.x)
+        x1 = documented_x_update(b)
+        if x1 is None:
+            x1 = s.subproblem_solver.solve(s.x)
         zs, us = [], []
         for rho, g, C, z, u in zip(s.rho_list, s.g_list, s.C_list, s.z_list, s.u_list):
             chat = s.alpha * C(x1) + (1.0 - s.alpha) * z
@@ -245,6 +277,11 @@ def documented_accessor(b, name, args):
             return _norm(Jx.T @ (Jz @ (s.z - s.z_old)))
         if a == "pdhg":
             return _norm(s.z - s.z_old) / s.sigma
+    if name == "fquad":
+        x, y, L = args
+        d = np.asarray(G.np_flat(x)) - np.asarray(G.np_flat(y))
+        g = np.asarray(G.np_flat(s.f.grad(y)))
+        return float(s.f(y)) + float(np.sum(np.real(np.conj(g) * d))) + 0.5 * L * float(np.sum(np.abs(d) ** 2))
     raise Infra(f"documented_accessor {a} {name}")
 
 
@@ -307,7 +344,7 @@ def check_accessors(ctx, model, b, rng, recipe, stepno):
         ]
         if a == "pgm":
             calls.append(("f_quad_approx(x,y,L)", s.f_quad_approx, (xa, ya, Lq), "fquad",
-                          {"xq": common.fs2b(xv), "yq": common.fs2b(yv), "Lq": common.f2b(Lq)}, None, None))
+                          {"xq": common.fs2b(xv), "yq": common.fs2b(yv), "Lq": common.f2b(Lq)}, "fquad", (xa, ya, Lq)))
     for label, fn, args, mname, mkw, dname, dargs in calls:
         impl = _impl_acc(fn, *args)
         mod = _model_acc(model, a, b.p, st, mname, **mkw)
@@ -383,6 +420,7 @@ def run_case(ctx, model, recipe, k, rng, accessors=True, tag="gen"):
     pre = init
     trace = model.call("step", alg=a, p=b.p, s=G.state_json(pre), k=k, mode="impl")
     moved = False
+    drifted = False
     for i in range(k):
         b.solver.step()
         post = b.read()
@@ -393,12 +431,20 @@ def run_case(ctx, model, recipe, k, rng, accessors=True, tag="gen"):
             ctx.count("discarded:diverged-trajectory")
             break
         m_iter = G.state_from_wire(trace[i])
-        fld = G.states_close(post, m_iter, rtol=RTOL * 10, skip=skip)
-        if fld is None and i > 0:
-            # sharp single-step comparison from the real pre-state
+        fld_iter = None if drifted else G.states_close(post, m_iter, rtol=RTOL * 10, skip=skip)
+        fld = fld_iter
+        if i > 0:
+            # sharp single-step comparison from the real pre-state: this IS the property (one call of step() on a
+            # reachable state).  The iterated model trajectory is only a drift indicator: on expanding trajectories
+            # (feedback step-size hooks, edge parameters) rounding differences are amplified step by step, so a
+            # deviation of the iterated trace alone (seed 5 thorough: 1e-6 relative after 30 steps while every single
+            # step agreed to 1e-15) is counted, not reported.
             m_one = G.state_from_wire(model.call("step", alg=a, p=b.p, s=G.state_json(pre), k=1, mode="impl")[0])
             fld = G.states_close(post, m_one, rtol=RTOL, skip=skip)
             m_iter = m_one
+            if fld is None and fld_iter is not None:
+                ctx.count("discarded:iterated-trace-drift(single-step agrees)")
+                drifted = True  # from here on only the single-step comparison is meaningful
         if fld is not None:
             case = {"recipe": recipe, "pre": pre if i > 0 else None, "k": 1, "step": i}
             ctx.disagree(f"steps.{a}.step", case, {fld: post[fld]}, {fld: m_iter.get(fld)}, oracle=oracle_step,
@@ -438,9 +484,67 @@ def corpus_cases():
     return out
 
 
+def check_constructors(ctx, model):
+    """argument checks of the constructors (ValueError cases) against `admmInitChecked` / `pgmInitChecked`:
+    exhaustive over list lengths 1..3 for ADMM, both values of has_prox for PGM / AcceleratedPGM"""
+    import scico.numpy as snp
+    from scico import functional, linop, loss
+    from scico.optimize import ADMM, PGM, AcceleratedPGM
+    from scico.optimize.admm import LinearSubproblemSolver
+
+    n = 3
+    x0 = snp.ones((n,), dtype=np.float64)
+    f = loss.SquaredL2Loss(y=snp.ones((n,), dtype=np.float64))
+    for ng in (1, 2, 3):
+        for nc in (1, 2, 3):
+            for nrho in (1, 2, 3):
+                try:
+                    a = ADMM(f=f, g_list=[functional.L1Norm() for _ in range(ng)],
+                             C_list=[linop.Identity((n,), input_dtype=np.float64) for _ in range(nc)],
+                             rho_list=[1.0] * nrho, x0=x0, subproblem_solver=LinearSubproblemSolver(), maxiter=1)
+                    impl = ("ok", [len(a.z_list), len(a.u_list), len(a.z_list_old)])
+                except Exception as e:  # noqa: BLE001
+                    impl = ("err", common.err_kind(e))
+                try:
+                    r = model.call("init_checked", alg="admm", ng=ng, nc=nc, nrho=nrho, n=n)
+                    mod = ("ok", [r["nz"], r["nu"], r["nzold"]])
+                except ModelErr as e:
+                    mod = ("err", e.kind)
+                ctx.count("constructor:admm:" + ("accepted" if impl[0] == "ok" else "rejected-" + str(impl[1])))
+                ctx.case({"config": f"ADMM.__init__ len(g,C,rho)=({ng},{nc},{nrho})"}, ("admm-init", ng, nc, nrho), sample_every=9)
+                if impl != mod:
+                    ctx.disagree("steps.admm.init_checked", {"ng": ng, "nc": nc, "nrho": nrho}, list(impl), list(mod))
+
+    class NoProx(functional.Functional):
+        has_eval = True
+        has_prox = False
+
+        def __call__(self, x):
+            return 0.0
+
+    for cls, alg in ((PGM, "pgm"), (AcceleratedPGM, "apgm")):
+        for hp in (True, False):
+            g = functional.L1Norm() if hp else NoProx()
+            try:
+                o = cls(f=f, g=g, L0=2.0, x0=x0, maxiter=1)
+                impl = ("ok", [float(o.L), float(np.asarray(o.x)[0])])
+            except Exception as e:  # noqa: BLE001
+                impl = ("err", common.err_kind(e))
+            try:
+                r = model.call("init_checked", alg=alg, has_prox=hp, L0=common.f2b(2.0), x0=common.fs2b([1.0] * n))
+                mod = ("ok", [common.b2f(r["L"]), common.b2fs(r["x"])[0]])
+            except ModelErr as e:
+                mod = ("err", e.kind)
+            ctx.count(f"constructor:{alg}:" + ("accepted" if impl[0] == "ok" else "rejected-" + str(impl[1])))
+            ctx.case({"config": f"{cls.__name__}.__init__ has_prox={hp}"}, (alg + "-init", hp), sample_every=2)
+            if impl != mod:
+                ctx.disagree(f"steps.{alg}.init_checked", {"has_prox": hp}, list(impl), list(mod))
+
+
 def correspond(ctx, model):
     common.setup_scico()
     rng = ctx.rng
+    check_constructors(ctx, model)
     for name, c in corpus_cases():
         run_case(ctx, model, c["recipe"], int(c.get("k", 3)), rng, tag="corpus")
         ctx.count(f"corpus:{name}")
